@@ -15,8 +15,8 @@ POSITIONS = [2, 4]
 # (REF, ALT alleles): SNV, two SNV alleles, padded deletion, padded insertion (affected_start == affected_end), MNV,
 # SNV + insertion allele in one record
 ALLELES = [("A", ["G"]), ("A", ["G", "T"]), ("AT", ["A"]), ("A", ["AGG"]), ("AT", ["GC"]), ("A", ["G", "AT"])]
-PS_FULL = ["absent", 1, 2, "null"]   # 'null': the FORMAT has a PS field whose value is missing ('.' -> None in PyVCF)
-PS_SMALL = ["absent", 1, 2]
+PS_FULL = ["absent", 0, 1, 2, "null"]  # PS is a non-negative integer: 0 is a valid phase set   # 'null': the FORMAT has a PS field whose value is missing ('.' -> None in PyVCF)
+PS_SMALL = ["absent", 0, 1]
 
 
 def record_specs(alleles, ps_menu):
